@@ -31,7 +31,7 @@ def run(ctx):
         n = 350 if ctx.tier == "quick" else 30000
         for i in range(n):
             db = filt.gen_db(rng)
-            cmds = [filt.gen_command(rng, db, odd=False) for _ in range(rng.randint(2, 5))]
+            cmds = filt.gen_pipeline(rng, db, rng.randint(2, 5), odd=False)
             base = filt.run_real(db, cmds, steps=True)
             eq, impl, model = filt.compare(db, cmds, drv, steps=True)
             ctx.count("permutations+monotone", repr((sorted(db["programs"]), cmds)), nontrivial=filt.nontrivial(base, db))
@@ -63,6 +63,45 @@ def run(ctx):
                                    [base if "exc" in base else {"final": base["final"], "ranking": base["ranking"]},
                                     other if "exc" in other else {"final": other["final"], "ranking": other["ranking"]}])
                     break
+        # commands sharing a pattern that matches several taxa: every order of the commands, exhaustively (a pattern resolved
+        # once must not be served from a memo that an earlier command altered — seeded change C06-d)
+        import itertools
+        import regex
+
+        q = 120 if ctx.tier == "quick" else 8000
+        for i in range(q):
+            db = filt.gen_db(rng, min_programs=3)
+            wide = [pat for pat in filt.TAXON_PATTERNS + [t[:rng.randint(1, len(t))] for t in db["taxa"]]
+                    if sum(1 for t in db["taxa"] if regex.compile(f"{pat}\\b").match(t)) >= 2]
+            if not wide:
+                continue
+            p1 = rng.choice(wide)
+            p2 = rng.choice(wide) if rng.random() < 0.5 else filt.gen_taxon_pattern(rng, db)
+            first = {"operation": rng.choice(["exclude", "include", "exclude all"]),
+                     "data": [[p1, filt.gen_predicate(rng, rng.random() < 0.8, False), p2]]}
+            second = {"operation": rng.choice(["include", "exclude", "impart", "include all"]),
+                      "data": [rng.choice([p1, p1, [p1, filt.gen_predicate(rng, None, False), p2]])]}
+            if second["operation"] == "impart" and not isinstance(second["data"][0], str):
+                second["data"] = [p1]
+            cmds = [first, second] + [filt.gen_command(rng, db, odd=False, bad_ok=False) for _ in range(rng.randint(0, 1))]
+            results = []
+            for perm in itertools.permutations(cmds):
+                res = filt.run_real(db, list(perm))
+                results.append((list(perm), res))
+                ctx.count("shared wide pattern, all orders", repr((sorted(db["programs"]), perm)), nontrivial=filt.nontrivial(res, db))
+            base_cmds, base = results[0]
+            for perm, other in results[1:]:
+                same = (("exc" in base) == ("exc" in other)) and sets_of(base) == sets_of(other) and costs_of(base) == costs_of(other)
+                if not same:
+                    meta_violation(ctx, "result depends on the order of the commands", db, [base_cmds, perm],
+                                   [base if "exc" in base else {"final": base["final"], "ranking": base["ranking"]},
+                                    other if "exc" in other else {"final": other["final"], "ranking": other["ranking"]}])
+                    break
+            eq, impl, model = filt.compare(db, cmds, drv)
+            if not eq:
+                n_dis += 1
+                if n_dis <= 3:
+                    filt.report_disagreement(ctx, "pipeline differs from the model", db, cmds, drv)
         # split / merge equivalences and hide neutrality
         m = 350 if ctx.tier == "quick" else 30000
         for i in range(m):
@@ -130,7 +169,8 @@ def run(ctx):
         drv.close()
     ctx.cov["rule"] = (
         "random well-formed databases × pipelines of 2-5 commands: the implementation is run on the list (state after each command "
-        "observed: monotonicity), on 3 random permutations (same sets and same ranking/costs), and compared with the model; split/merged "
+        "observed: monotonicity), on 3 random permutations (same sets and same ranking/costs), and compared with the model; pipelines whose "
+        "commands share a pattern matching several taxa (a negated or positive triple, then the pattern alone or in another triple), run in EVERY order; split/merged "
         "variants of `include all` / `exclude`, `hide` insertions, and the two meta/program equivalences on import-free databases where "
         "every program has exactly one meta/program spanning it. Non-trivial as in C04; distinct = distinct (programs, pipeline[s])."
     )
